@@ -26,11 +26,12 @@ HOWS = ['copy', 'deepcopy'] + ['p%d' % p for p in range(pickle.HIGHEST_PROTOCOL 
 
 # ---------------------------------------------------------------- objects as integer tuples
 
-def _glob(prefix_octets, x, y):
+def _glob(prefix_octets, x, y, spelled=False):
+    """spelled: the full octet written `0-255`, which valid_glob accepts and whose canonical form is `*`"""
     k = len(prefix_octets)
     stars = 3 - k
     parts = [str(p) for p in prefix_octets]
-    parts.append(str(x) if x == y else ('*' if (x, y) == (0, 255) else '%d-%d' % (x, y)))
+    parts.append(str(x) if x == y else ('*' if (x, y) == (0, 255) and not spelled else '%d-%d' % (x, y)))
     parts += ['*'] * stars
     base = 0
     for p in prefix_octets:
@@ -64,7 +65,7 @@ def build(o):
     if k == 'N':
         return common.make_net(o[1], o[2], o[3])
     if k == 'R':
-        return IPRange(IPAddress(o[2], o[1]), IPAddress(o[3], o[1]))
+        return common.make_range(o[1], o[2], o[3])
     if k == 'G':
         return common.make_glob(o[3])
     if k == 'S':
@@ -130,6 +131,7 @@ def universe(rng, extra=2):
     objs += [_glob([0, 0, 0], 0, 3), _glob([0, 0, 0], 4, 7), _glob([0, 0, 0], 0, 255), _glob([], 0, 255),
              _glob([255, 255, 255], 248, 255), _glob([255, 255, 255], 255, 255), _glob([0, 0, 0], 0, 0),
              _glob([0, 0, 0], 4, 4), _glob([0, 0], 0, 1), _glob([rng.randrange(256), rng.randrange(256)], 7, 9)]
+    objs += [_glob([rng.randrange(256) for _ in range(k)], 0, 255, spelled=True) for k in (0, 1, 1, 2, 2, 3, 3, 3)]
     # dedupe, keep order
     seen = set()
     out = []
